@@ -421,7 +421,7 @@ RULE = (
 
 def build(tier):
     return CheckSpec(
-        [Sub("histories", run_case, strategy=_case, budget={"quick": 1500, "thorough": 30000}, max_wall={"quick": 55, "thorough": 2400})],
+        [Sub("histories", run_case, strategy=_case, budget={"quick": 1500, "thorough": 150000}, max_wall={"quick": 55, "thorough": 3600})],
         RULE,
         assumptions=[
             "the model is driven by the observed response class (2.xx applies, 4.xx must change nothing); only requests generated as plainly valid are required to succeed",
